@@ -12,6 +12,7 @@ import os
 import random
 import re
 import shutil
+import time
 
 from vlib import common, runs
 
@@ -145,18 +146,22 @@ def run(rep):
         variants.append(("import-paths", None, ["ambig/" + p for p in srt], srt, ()))
         variants.append(("import-path-pattern", None, ["ambig/..."], srt, tuple(bad_dirs)))
         variants.append(("mixed-spellings", None, [("./" + p) if i % 2 else ("ambig/" + p) for i, p in enumerate(srt)], srt, ()))
-        for p in srt:
-            variants.append(("cwd-is-package", p, ["."], [p], ()))
-            variants.append(("relative-from-sibling", "x", ["../" + p], [p], ()))
-            variants.append(("import-path-alone", None, ["ambig/" + p], [p], ()))
-            variants.append(("import-path-from-package-dir", p, ["ambig/" + p], [p], ()))
+        for pi, p in enumerate(srt):
+            # the spelling variants do not depend on what the package contains: in the quick tier every package gets two of
+            # the four (rotating with the seed), in the thorough tier all
+            spell = [("cwd-is-package", p, ["."]), ("relative-from-sibling", "x", ["../" + p]), ("import-path-alone", None, ["ambig/" + p]),
+                     ("import-path-from-package-dir", p, ["ambig/" + p])]
+            for si, (vn, cwd, args) in enumerate(spell):
+                if rep.tier != "quick" or (si + pi + rep.seed) % 2 == 0:
+                    variants.append((vn, cwd, args, [p], ()))
             variants.append(("rerun-over-own-output", None, ["./" + p], [p], ()))
             variants.append(("rerun-twice-over-own-output", None, ["./" + p], [p], ()))
         if "user" in ok and "amb2" in ok:
             variants.append(("with-importer-first", None, ["./user", "./amb2"], ["user", "amb2"], ()))
             variants.append(("with-importer-last", None, ["./amb2", "./user"], ["user", "amb2"], ()))
-        for a, b in zip(srt, srt[1:] + srt[:1]):
-            variants.append(("pair", None, ["./" + a, "./" + b], [a, b], ()))
+        for pi, (a, b) in enumerate(zip(srt, srt[1:] + srt[:1])):
+            if rep.tier != "quick" or (pi + rep.seed) % 2 == 0:
+                variants.append(("pair", None, ["./" + a, "./" + b], [a, b], ()))
         for p in srt[:3]:
             variants.append(("absolute-path", None, ["ABS/" + p], [p], ()))
         reps = 2 if rep.tier == "quick" else 6
@@ -248,8 +253,8 @@ def run(rep):
         # named package it imports has its derived.gen.go; every order and spelling of the two arguments
         fb = [p for p in pkgs if kind_of.get(p) == "flow-base"]
         ft = [p for p in pkgs if kind_of.get(p) == "flow-top"]
-        if fb and ft and status.get(fb[0]) == "ok":
-            b0, t0 = fb[0], ft[0]
+        for t0 in (ft if fb and status.get(fb[0]) == "ok" else []):
+            b0 = fb[0]
             fvars = [[x + b0, x + t0] for x in ("./", "ambig/")] + [[x + t0, x + b0] for x in ("./", "ambig/")] + \
                     [["./" + t0, "ambig/" + b0], ["ambig/" + t0, "./" + b0], ["./" + b0, "ambig/" + t0], ["ambig/" + b0, "./" + t0]]
             keep = tuple(q for q in pkgs if q not in (b0, t0) and kind_of.get(q) not in ("assignable-named-unnamed",))
@@ -272,7 +277,47 @@ def run(rep):
                                  "cd %s && " % v[1] if v[1] else "", " ".join(v[2]), r["rc"], p, r["sha"][p][:12], " ".join(fvars[0]), ref["rc"], ref["sha"][p][:12]),
                              {"cmd": "goderive " + " ".join(v[2]), "baseline_cmd": "goderive " + " ".join(fvars[0]), "package": p, "stderr": r["out"][-600:],
                               "files": {q: runs.read_tree(os.path.join(src, q)) for q in (b0, t0)}})
-            rep.cov["flow_pair_runs"] = len(fjobs)
+            rep.cov["flow_pair_runs"] = rep.cov.get("flow_pair_runs", 0) + len(fjobs)
+
+        # ---- 6. history: the bytes are a function of the CURRENT sources (the package's own and those it imports) and the
+        # flags: generate htop, add a field to a struct of the imported hbase, generate htop again with the same arguments;
+        # the result must be what a from-scratch generation over the changed sources gives
+        if "htop" in ok and "hbase" in pkgs:
+            def add_field(root):
+                fp = os.path.join(root, "hbase", "hbase.go")
+                txt = open(fp).read().replace("// FIELDS", "Count map[string]int\n\tNote  *string")
+                open(fp, "w").write(txt)
+
+            def history(mode):
+                root = fresh(src, work, "hist-" + mode)
+                out = []
+                if mode != "scratch":
+                    out.append(runs.goderive(binp, root, ["./htop"] if mode == "alone" else ["./hbase", "./htop"], timeout=TIMEOUT * 2))
+                    time.sleep(1.1)  # the generated file is older than the edit that follows by a full mtime tick
+                    for fn in os.listdir(os.path.join(root, "htop")):  # … and newer than the package's own sources
+                        if fn != DERIVED:
+                            os.utime(os.path.join(root, "htop", fn), (time.time() - 3600, time.time() - 3600))
+                add_field(root)
+                r = runs.goderive(binp, root, ["./htop"] if mode != "both" else ["./hbase", "./htop"], timeout=TIMEOUT * 2)
+                r["sha"] = shas(root, pkgs)
+                r["text"] = open(os.path.join(root, "htop", DERIVED), errors="replace").read() if r["sha"]["htop"] != "absent" else ""
+                shutil.rmtree(root, ignore_errors=True)
+                return r
+
+            hres = {m: history(m) for m in ("scratch", "alone", "both")}
+            evaluations += 5
+            for m in ("alone", "both"):
+                comparisons += 1
+                distinct.add(("htop", "history-" + m))
+                if hres[m]["sha"]["htop"] != hres["scratch"]["sha"]["htop"] or hres[m]["rc"] != hres["scratch"]["rc"]:
+                    flag("C08/bytes-differ:history-imported-package-changed",
+                         "htop/derived.gen.go after `goderive ./htop`, adding two fields to hbase.Item, `goderive ./htop` again (%s) is %s (exit %s); generated from "
+                         "scratch over the same final sources it is %s (exit %s)%s" % (
+                             m, hres[m]["sha"]["htop"][:12], hres[m]["rc"], hres["scratch"]["sha"]["htop"][:12], hres["scratch"]["rc"],
+                             "" if "Count" in hres[m]["text"] else ": the new fields are missing from the regenerated file"),
+                         {"cmd": "goderive ./htop; <add fields Count, Note to hbase.Item>; goderive ./htop", "baseline_cmd": "<add fields>; goderive ./htop",
+                          "files": {q: runs.read_tree(os.path.join(src, q)) for q in ("hbase", "htop")}})
+            rep.cov["history_runs"] = 5
 
         rep.cov["evaluations"] = evaluations
         rep.cov["programs"] = len(pkgs)
